@@ -14,6 +14,7 @@
 (*   Out ep peer f   one whole frame seen on the wire of an endpoint          *)
 (*   TWFail ep closed | TWBlocked ep | TMode ep mode                          *)
 (*   Attempt ep n mode probe t | CloseInv | CloseRet | EvClosed | Timeout what *)
+(*   Quiesced  the harness saw no activity for a whole idle interval          *)
 (*   Final goroutines_left ports_rebound custom_close events_closed | Panic   *)
 (* Every event carries seq (global order) and t (milliseconds).               *)
 EXTENDS Integers, Sequences, SequencesExt, FiniteSets, FiniteSetsExt, MavFrame, MavMessage
@@ -32,6 +33,7 @@ Init0 ==
    closing |-> FALSE, closeRet |-> FALSE, consumerStopped |-> FALSE,
    calls |-> <<>>,                                           \* call records in invoke order
    ret |-> {},                                               \* calls that returned
+   settled |-> {},                                           \* calls that had returned when the harness last saw the node idle
    outs |-> <<>>,                                            \* [ep -> sequence of [tag, g, call]]
    nOrig |-> <<>>,                                           \* [ep -> originated frames seen since the instance started]
    newInst |-> {},                                           \* endpoints that opened a new instance since the last originated frame
@@ -46,6 +48,7 @@ Init0 ==
    bad |-> {}]
 
 Key(ev) == <<ev.ep, ev.inst>>
+Wire(ev) == <<ev.ep, ev.peer>>          \* one wire per custom endpoint (peer 0) and per peer of a server endpoint
 PKey(ev) == <<ev.ep, ev.peer>>
 
 Flag(m, clause, ev) == [m EXCEPT !.bad = @ \cup {<<clause, ev.seq>>}]
@@ -73,7 +76,8 @@ OnEvOpen(m, ev) ==
   LET k == Key(ev)
       othersOpen == {j \in m.opened \ m.closed : j[1] = ev.ep /\ j # k}
       m1 == Check(m, "C10.open_exactly_once_and_first", k \notin m.opened /\ ~ev.dup, ev)
-      m2 == Check(m1, "C14.one_channel_at_a_time", ~(m.kinds[ev.ep + 1] \in OneAtATimeKinds) \/ othersOpen = {}, ev)
+      \* once Close is invoked close events may legitimately be missing (found by TLC on INode): not held against the closing window
+      m2 == Check(m1, "C14.one_channel_at_a_time", m.closing \/ ~(m.kinds[ev.ep + 1] \in OneAtATimeKinds) \/ othersOpen = {}, ev)
   IN [m2 EXCEPT !.opened = @ \cup {k}, !.instPeer = Put(@, k, ev.peer), !.newInst = @ \cup {ev.ep},
                 !.openTimes = Append(@, [ep |-> ev.ep, inst |-> ev.inst, peer |-> ev.peer, t |-> ev.t])]
 
@@ -143,10 +147,13 @@ IsFrameKind(c) == c.kind \in {"FrameAll", "FrameTo", "FrameExcept"}
 \* and no fault has been injected there.
 Named(c) == c.target \notin {"foreign", "unknown", "none"}
 OnlyInstance(m, c) == {k \in m.opened : k[1] = c.tep} = {<<c.tep, c.tinst>>} /\ c.tep \notin m.faulted
-MayReach(m, c, ep) ==
-  IF IsTo(c) THEN Named(c) /\ c.tep = ep /\ <<c.tep, c.tinst>> \notin c.closedAtInvoke
-  ELSE IF IsExcept(c) THEN ~(Named(c) /\ c.tep = ep /\ OnlyInstance(m, c))
+TargetPeer(m, c) == Get(m.instPeer, <<c.tep, c.tinst>>, 0)
+Coexisting(m, ep) == m.kinds[ep + 1] \notin OneAtATimeKinds      \* server endpoints: one live instance per peer
+MayReachWire(m, c, w) ==
+  IF IsTo(c) THEN Named(c) /\ c.tep = w[1] /\ TargetPeer(m, c) = w[2] /\ <<c.tep, c.tinst>> \notin c.closedAtInvoke
+  ELSE IF IsExcept(c) THEN ~(Named(c) /\ c.tep = w[1] /\ TargetPeer(m, c) = w[2] /\ (Coexisting(m, w[1]) \/ OnlyInstance(m, c)))
   ELSE TRUE
+MayReach(m, c, ep) == MayReachWire(m, c, <<ep, 0>>)
 
 Le4(p, o) == p[o + 1] + 256 * p[o + 2] + 65536 * p[o + 3]     \* 24 bits are enough for tags
 
@@ -156,7 +163,7 @@ ExpectedComp(m) == IF m.conf.comp = 0 THEN 1 ELSE m.conf.comp
 OrigClauses(m, ev, f, def) ==
   LET keyed == Len(m.conf.outkey) > 0
       fresh == ev.ep \in m.newInst
-      n == Get(m.nOrig, ev.ep, 0)
+      n == Get(m.nOrig, Wire(ev), 0)
       seqOk == f.seq = n % 256 \/ (fresh /\ f.seq = 0)
   IN << <<"C09.configured_identity", f.sys = m.conf.sys /\ f.comp = ExpectedComp(m)>>,
         <<"C09.configured_version", f.v = m.conf.version>>,
@@ -164,35 +171,34 @@ OrigClauses(m, ev, f, def) ==
         <<"C09.per_link_sequence_gapless", seqOk>>,
         <<"C09.checksum_for_crc_extra", f.ck = Checksum(f, CrcExtra(FromGo(Defs[def])))>>,
         <<"C06.node_signature_valid", ~(keyed /\ IsSigned(f)) \/ f.sig = Sign(m.conf.outkey, f)>>,
-        <<"C06.node_link_id_constant", ~(keyed /\ IsSigned(f)) \/ Get(m.linkId, ev.ep, f.link) = f.link \/ fresh>>,
-        <<"C07.node_timestamps_never_decrease", ~(keyed /\ IsSigned(f)) \/ fresh \/ ~Lt(f.ts, Get(m.lastTs, ev.ep, <<0>>))>> >>
+        <<"C06.node_link_id_constant", ~(keyed /\ IsSigned(f)) \/ Get(m.linkId, Wire(ev), f.link) = f.link \/ fresh>>,
+        <<"C07.node_timestamps_never_decrease", ~(keyed /\ IsSigned(f)) \/ fresh \/ ~Lt(f.ts, Get(m.lastTs, Wire(ev), <<0>>))>> >>
 
 ApplyClauses(m, cl, ev) ==
   FoldLeft(LAMBDA mm, c : Check(mm, c[1], c[2], ev), m, cl)
 
 AfterOrig(m, ev, f) ==
   LET fresh == ev.ep \in m.newInst
-      n == IF fresh /\ f.seq = 0 THEN 0 ELSE Get(m.nOrig, ev.ep, 0)
-  IN [m EXCEPT !.nOrig = Put(@, ev.ep, f.seq + 1), !.newInst = @ \ {ev.ep},
-               !.linkId = IF IsSigned(f) THEN Put(@, ev.ep, f.link) ELSE @,
-               !.lastTs = IF IsSigned(f) THEN Put(@, ev.ep, f.ts) ELSE @]
+  IN [m EXCEPT !.nOrig = Put(@, Wire(ev), f.seq + 1), !.newInst = @ \ {ev.ep},
+               !.linkId = IF IsSigned(f) THEN Put(@, Wire(ev), f.link) ELSE @,
+               !.lastTs = IF IsSigned(f) THEN Put(@, Wire(ev), f.ts) ELSE @]
 
 OnOutTagged(m, ev, f) ==
   LET tag == Le4(f.payload, 0)
       ci == CallOfTag(m, tag)
       c == m.calls[ci]
-      prev == Get(m.outs, ev.ep, <<>>)
+      prev == Get(m.outs, Wire(ev), <<>>)
       sameG == {i \in 1..Len(prev) : prev[i].g = c.g}
       lastCall == IF sameG = {} THEN 0 ELSE prev[Max(sameG)].call
       m1 == Check(m, "C11.only_submitted_items_on_the_wire", ci # 0, ev)
   IN IF ci = 0 THEN m1
      ELSE LET m2 == Check(m1, "C11.exactly_once_per_channel", \A i \in 1..Len(prev) : prev[i].tag # tag, ev)
-              m3 == Check(m2, "C11.reaches_only_the_addressed_channels", MayReach(m, c, ev.ep), ev)
+              m3 == Check(m2, "C11.reaches_only_the_addressed_channels", MayReachWire(m, c, Wire(ev)), ev)
               m4 == Check(m3, "C11.fifo_per_writer_per_channel", c.call > lastCall, ev)
               m5 == IF IsFrameKind(c)
                     THEN Check(m4, "C11.forwarded_frame_keeps_its_header", f.sys = 77 /\ f.comp = 88 /\ f.seq = tag % 256, ev)
                     ELSE AfterOrig(ApplyClauses(m4, OrigClauses(m4, ev, f, TagDef), ev), ev, f)
-          IN [m5 EXCEPT !.outs = Put(@, ev.ep, Append(prev, [tag |-> tag, g |-> c.g, call |-> c.call, seq |-> ev.seq]))]
+          IN [m5 EXCEPT !.outs = Put(@, Wire(ev), Append(prev, [tag |-> tag, g |-> c.g, call |-> c.call, seq |-> ev.seq]))]
 
 \* ------------------------------------------------------------------ C16: heartbeats and stream requests
 HbWanted(m) == ~m.conf.hb_disable /\ m.conf.dialect \in {"common", "no66"}
@@ -257,12 +263,13 @@ Steady(m, ep) ==
   /\ ep \notin m.disturbed
   /\ Cardinality({k \in m.opened : k[1] = ep}) = 1
 
-TagsOn(m, ep) == {Get(m.outs, ep, <<>>)[i].tag : i \in 1..Len(Get(m.outs, ep, <<>>))}
+OutsOn(m, ep) == Get(m.outs, <<ep, 0>>, <<>>)          \* custom endpoints: the single wire
+TagsOn(m, ep) == UNION {{m.outs[w][i].tag : i \in 1..Len(m.outs[w])} : w \in {x \in DOMAIN m.outs : x[1] = ep}}
 
 \* a call that must have reached ep: issued and returned before Close, channel open (event received) before the
 \* invoke, endpoint steady, encodable item, addressed
 MustReach(m, c, ep) ==
-  /\ c.bad = "" /\ ~c.closingAtInvoke /\ c.call \in m.ret
+  /\ c.bad = "" /\ ~c.closingAtInvoke /\ c.call \in m.settled
   /\ Steady(m, ep)
   /\ \E k \in c.openAtInvoke : k[1] = ep /\ (IsTo(c) => k = <<c.tep, c.tinst>>)
   /\ MayReach(m, c, ep)
@@ -287,7 +294,7 @@ FinalWriteFault(m, ev) ==
       silent(ep) ==
         faultSeq(ep) # {} /\
         LET s == Min(faultSeq(ep))
-            later == {c \in ToSet(m.calls) : c.seq > s /\ c.bad = "" /\ ~c.closingAtInvoke /\ c.call \in m.ret /\ MayReach(m, c, ep)
+            later == {c \in ToSet(m.calls) : c.seq > s /\ c.bad = "" /\ ~c.closingAtInvoke /\ c.call \in m.settled /\ MayReach(m, c, ep)
                                                }
             closedAfter == \E i \in 1..Len(m.closeTimes) : m.closeTimes[i].ep = ep /\ ~m.closeTimes[i].closing
         IN later # {} /\ ~closedAfter /\ \A c \in later : c.tag \notin TagsOn(m, ep)
@@ -298,16 +305,16 @@ FinalBacklog(m, ev) ==
   LET ok(ep) ==
         LET b == m.blockedAt[ep]
             \* what reached the wire from the blocked write on (transport writes are recorded when they complete)
-            Wire == SelectSeq(Get(m.outs, ep, <<>>), LAMBDA o : o.seq > b)
+            OnWire == SelectSeq(OutsOn(m, ep), LAMBDA o : o.seq > b)
             \* the calls that address ep, in submission order (one writer goroutine in these scenarios)
             Elig == SelectSeq(m.calls, LAMBDA c : c.bad = "" /\ MayReach(m, c, ep))
-            first == IF Len(Wire) = 0 THEN 0 ELSE LET S == {i \in 1..Len(Elig) : Elig[i].tag = Wire[1].tag} IN IF S = {} THEN 0 ELSE Min(S)
+            first == IF Len(OnWire) = 0 THEN 0 ELSE LET S == {i \in 1..Len(Elig) : Elig[i].tag = OnWire[1].tag} IN IF S = {} THEN 0 ELSE Min(S)
             afterBlock == Len(SelectSeq(Elig, LAMBDA c : c.seq > b))
         IN \/ ep \notin DOMAIN m.releasedAt \/ afterBlock < 70
            \/ /\ first > 0
-              /\ Len(Wire) \in 64..66
-              /\ first + Len(Wire) - 1 <= Len(Elig)
-              /\ \A i \in 1..Len(Wire) : Wire[i].tag = Elig[first + i - 1].tag
+              /\ Len(OnWire) \in 64..66
+              /\ first + Len(OnWire) - 1 <= Len(Elig)
+              /\ \A i \in 1..Len(OnWire) : OnWire[i].tag = Elig[first + i - 1].tag
   IN Check(m, "C13.bounded_backlog_keeps_the_oldest_items_in_order", \A ep \in DOMAIN m.blockedAt : ok(ep), ev)
 
 \* C14: reconnects of client-type endpoints
@@ -395,6 +402,7 @@ Step(m, ev) ==
     [] ev.e = "TMode" -> OnTMode(m, ev)
     [] ev.e = "Attempt" -> OnAttempt(m, ev)
     [] ev.e = "Consumer" -> IF ev.run THEN m ELSE [m EXCEPT !.consumerStopped = TRUE]
+    [] ev.e = "Quiesced" -> IF m.closing THEN m ELSE [m EXCEPT !.settled = m.ret]
     [] ev.e = "CloseInv" -> [m EXCEPT !.closing = TRUE, !.tCloseInv = ev.t]
     [] ev.e = "CloseRet" -> [m EXCEPT !.closeRet = TRUE]
     [] ev.e = "Timeout" -> OnTimeout(m, ev)
